@@ -2,16 +2,15 @@ from vf.props import common as C
 
 
 def plan(tier):
-    conds = C.t_instr_conds("C09", tier)
+    conds = []
+    conds += C.t_instr_conds("C09", tier)
     return {
         "conds": conds,
         "min_classes": 150,
-        "explanation": "C09: counter invariant I-cnt (free plugs in [0,total], total-free = vehicles charging there incl. via a base, "
-                       "queue counter = vehicles queueing; stalls likewise) is preserved by one real transition from an arbitrary "
-                       "INV pre-state (one-step induction).",
-        "entry_points": ["step_simulation_ops.apply_instructions"],
-        "bounds": C.ARENA_BOUNDS + ["1 modelled vehicle per transition; 13 previous activities x 16 instructions"],
-        "outside": ["stations removed mid-run", "custom Instruction subclasses"],
-        "stubs": C.STUBS_COMMON,
-        "assumptions": ["pre-state satisfies INV (DESIGN 3.2)"],
+        "explanation": 'C09: an applied instruction either puts the vehicle into the instructed activity with its side effects (counters, request record, applied_instructions) touching nothing but the vehicle and its old/new targets, or leaves the whole simulation state structurally unchanged.',
+        "entry_points": ['step_simulation_ops.apply_instructions'],
+        "bounds": C.ARENA_BOUNDS + C.T_BOUNDS,
+        "outside": C.T_OUTSIDE,
+        "stubs": C.STUBS_COMMON + C.STUBS_UPD,
+        "assumptions": ["pre-state satisfies INV (DESIGN 3.2); INV base case is the loader's initial state"],
     }
